@@ -233,12 +233,28 @@ func dischargeHarness(cfg *PropConfig, hr *HarnessResult, getPool func(string) *
 					body += sb.String()
 				}
 				j.res = pool.query(body, vs, timeout)
-				if j.res.Verdict != "sat" && j.res.Verdict != "unsat" && intMode {
-					// second chance: stand-alone bit-vector encoding on the default solver
-					b, v := buildQuery(j.conj)
-					r2 := getPool(solver).query(b, v, timeout)
-					if r2.Verdict == "sat" || r2.Verdict == "unsat" {
-						j.res = r2
+				if j.res.Verdict != "sat" && j.res.Verdict != "unsat" {
+					// second and third chance: the stand-alone bit-vector encoding on the default solver (when the
+					// first attempt was the integer encoding) and on the other z3 release. A solver that wanders off
+					// on one run of a query it normally answers in seconds must not make the check inconclusive.
+					var alts []string
+					if intMode {
+						alts = append(alts, solver)
+					}
+					for _, a := range []string{"z3-new", "z3"} {
+						if a != sn || intMode {
+							if len(alts) == 0 || alts[0] != a {
+								alts = append(alts, a)
+							}
+						}
+					}
+					for _, a := range alts {
+						b, v := buildQuery(j.conj)
+						r2 := getPool(a).query(b, v, timeout)
+						if r2.Verdict == "sat" || r2.Verdict == "unsat" {
+							j.res = r2
+							break
+						}
 					}
 				}
 				if (j.res.Verdict == "error" || j.res.Verdict == "unknown") && dump && j.o != nil {
